@@ -97,14 +97,17 @@ def checks_phase(out, patch, only):
     try:
         manifest = json.load(open(os.path.join(VERIF, "MANIFEST.json")))
         caught = {}
-        for c in manifest["checks"]:
-            pid = c["property_id"]
-            if only and pid not in only:
-                continue
-            rc, o = sh(c["quick_cmd"], cwd=VERIF, timeout=600)
-            if rc != 0:
-                lines = [l for l in o.splitlines() if l.startswith(f"[{pid}] ") and re.match(r"\[\w+\] [A-Z]\d ", l)]
-                caught[pid] = {"exit": rc, "reports": [l[:300] for l in lines[:4]] or [l for l in o.splitlines() if "ANALYSIS-ERROR" in l][:2]}
+        todo = [c for c in manifest["checks"] if not only or c["property_id"] in only]
+
+        def one(c):
+            return c["property_id"], sh(c["quick_cmd"], cwd=VERIF, timeout=900)
+
+        from concurrent.futures import ThreadPoolExecutor
+        with ThreadPoolExecutor(16) as ex:
+            for pid, (rc, o) in ex.map(one, todo):
+                if rc != 0:
+                    lines = [l for l in o.splitlines() if l.startswith(f"[{pid}] ") and re.match(r"\[\w+\] [A-Z]\d+ ", l)]
+                    caught[pid] = {"exit": rc, "reports": [l[:300] for l in lines[:4]] or [l for l in o.splitlines() if "ANALYSIS-ERROR" in l][:2]}
         out["caught_by"] = caught
     finally:
         sh(f"git -C {REPO} checkout -- . && git -C {REPO} clean -fdq")
@@ -113,9 +116,10 @@ def checks_phase(out, patch, only):
             sh(f"git -C {REPO} checkout -- . && git -C {REPO} clean -fdq")
         out["repo_clean_after"] = not sh(f"git -C {REPO} status --porcelain")[1].strip()
     # evidence files were rewritten by the runs on the patched tree: regenerate them on the clean tree
-    for c in manifest["checks"]:
-        if not only or c["property_id"] in only:
-            sh(c["quick_cmd"], cwd=VERIF)
+    if "--no-regen" not in sys.argv:
+        for c in manifest["checks"]:
+            if not only or c["property_id"] in only:
+                sh(c["quick_cmd"], cwd=VERIF)
     print(json.dumps(out, indent=1))
     return 0
 
